@@ -159,6 +159,13 @@ func (s *Server) acceptConnections(listener net.Listener, listenerType string) {
 func (s *Server) handleConnection(conn net.Conn) {
 	defer s.wg.Done()
 	defer func() { _ = conn.Close() }()
+	// A panic while handling this connection must not take the whole
+	// LMTP service down: log it and drop only this connection.
+	defer func() {
+		if r := recover(); r != nil {
+			log.Printf("panic while serving %s, closing connection: %v", conn.RemoteAddr(), r)
+		}
+	}()
 
 	// Configure TCP options for better connection stability
 	if tcpConn, ok := conn.(*net.TCPConn); ok {
